@@ -12,19 +12,22 @@ T == Traces[tid]
 E == T.ev[l]
 
 TInit == /\ tid \in 1..Len(Traces) /\ l = 1
-         /\ InitWith([limit |-> Traces[tid].cfg.limit])
+         /\ InitWith([limit |-> Traces[tid].cfg.limit, inline |-> Traces[tid].cfg.inline])
 
 Matches == /\ last'.e = E.e /\ last'.res = E.res /\ last'.n = E.n /\ last'.raised = E.raised
            /\ last'.sub = E.sub /\ last'.st = E.st
 
-Step(A) == /\ l <= Len(T.ev) /\ A /\ Matches /\ Inv' /\ l' = l + 1 /\ UNCHANGED tid
+\* E.fin: last event of a harness operation; with the inline (LockWorker) coordinator nothing may stay queued then
+Step(A) == /\ l <= Len(T.ev) /\ A /\ Matches /\ Inv'
+           /\ ((T.cfg.inline /\ E.fin) => InlineDone')
+           /\ l' = l + 1 /\ UNCHANGED tid
 
 TNext == \/ (E.e = "do" /\ Step(Do))
          \/ (E.e = "grow" /\ Step(Grow(E.n)))
          \/ (E.e = "shrink" /\ Step(Shrink(E.n)))
          \/ (E.e = "setlimit" /\ Step(SetLimit(E.n)))
          \/ (E.e = "quit" /\ Step(Quit))
-         \/ (E.e = "coord" /\ Step(CoordStep \/ CoordIdle))
+         \/ (E.e = "coord" /\ Step(CoordStep \/ CoordIdle \/ CoordFail))
          \/ (E.e = "work" /\ Step(WorkerStep(E.n) \/ WorkerIdle(E.n)))
 
 TSpec == TInit /\ [][l <= Len(T.ev) /\ TNext]_<<vars, tid, l>>
